@@ -1,9 +1,13 @@
 import Driver.Util
 import Hv.Conc.Linearize
+import Hv.Conc.Stale
 
 /-! Line-protocol driver of domain C09 (same ops and reply format as `/verif/harness/c09.go`).
     Threads are the calls of `Hv.Lin`; in immediate-write mode the chronicler's two guard sessions
-    inside `Save` (encode, then `FilePointerCallbackFunction`) are environment sessions of the model. -/
+    inside `Save` (encode, then `FilePointerCallbackFunction`) are environment sessions of the model.
+    Object identity (which treasure object is stored under the key, who works on an orphan) is `Hv.Stale`, executed
+    next to `Hv.Lin`: every `fetch` / `del` / `step` also performs the corresponding `Hv.Stale.step`s, and "absent",
+    "works on a replaced object" and the stale-object flag are read off that state. -/
 namespace Driver.C09
 open Hv.Lin Hv.Guard
 
@@ -33,6 +37,9 @@ structure DSt where
   /-- immediate-write mode: calls whose file writer is pending, in the order of their in-save release; the writers
       run one after the other (the harness starts a writer only when no earlier one is pending) -/
   wq : List Nat := []
+  /-- the object-identity model, run next to `s`; deletes are calls 20, 21, … -/
+  st : Hv.Stale.St := Hv.Stale.init 5
+  ndel : Nat := 0
   /-- the record is in the swamp's list of treasures waiting for the file writer -/
   dirtyW : Bool := false
   /-- who stamped the record's UpdatedBy last (every call does, between taking the guard and reading the value);
@@ -58,6 +65,32 @@ def tidOf (n : String) : Option Nat :=
 def incOf (t : Nat) : Int := match t with | 1 => 1 | 2 => 10 | 3 => 100 | _ => 1000
 
 def op : Nat → Int → Int := fun t v => v + incOf t
+
+/-! object identity: `Hv.Stale` -/
+
+def skinds : Nat → Hv.Stale.Kind := fun t => if t ≥ 20 then .del else .inc (incOf t)
+
+def scfgOf (d : DSt) : Hv.Stale.Cfg := { recheck := d.recheck }
+
+def sstep1 (d : DSt) (t : Nat) : Option Hv.Stale.St := Hv.Stale.step (scfgOf d) (d.kind == "p0") skinds d.st t
+
+/-- perform `Hv.Stale` steps of call `t` until its pc is `goal` (or it cannot move) -/
+def suntil (fuel : Nat) (d : DSt) (t goal : Nat) : DSt :=
+  match fuel with
+  | 0 => d
+  | fuel + 1 =>
+    if (d.st.th t).pc == goal then d else
+    match sstep1 d t with
+    | some st' => suntil fuel { d with st := st' } t goal
+    | none => d
+
+def sabsent (d : DSt) : Bool := (Hv.Stale.final d.st).isNone
+
+/-- the completed operations cannot be put into a serial order that explains them and the final state
+    (checked in completion order and in the reverse one: at most two operations are involved here) -/
+def sbroken (d : DSt) : Bool :=
+  let ok := fun (l : List Hv.Stale.Entry) => Hv.Stale.specReplay skinds (some 5) l == some (Hv.Stale.final d.st)
+  !(ok d.st.log || ok d.st.log.reverse)
 
 def cfgOf (d : DSt) : Hv.Lin.Cfg :=
   { guard := { resetsIdOnEmpty := d.resets }, releaseInSave := d.kind == "p0" && d.relWhenImm, shape := .guarded }
@@ -111,7 +144,7 @@ def showState (d : DSt) (u : Th) : String :=
   | _ => "?"
 
 def showVal (d : DSt) : String :=
-  if d.deleted && !d.resurrected then "absent" else toString d.s.val
+  if sabsent d then "absent" else toString d.s.val
 
 def render (d : DSt) (name : String) (state : String) : String :=
   s!"{name}:{state} q={Driver.showNatList (d.s.g.queue.map (·.1))} c={d.s.g.counter} v={showVal d}"
@@ -129,7 +162,7 @@ def stepThread (d : DSt) (name : String) (fetch : Bool) : DSt × String :=
     match known, fetch with
     | none, true =>
       let u : Th := { name := name, tid := t, fetchedOnly := true, wsid := 0, wleft := 0 }
-      let d' := { d with ths := d.ths ++ [u] }
+      let d' := suntil 1 { d with ths := d.ths ++ [u] } t 1
       (d', render d' name "F")
     | some _, true => (d, "bad-op")
     | _, false =>
@@ -139,7 +172,13 @@ def stepThread (d : DSt) (name : String) (fetch : Bool) : DSt × String :=
       if ts.pc ≥ 5 || (ts.pc == 4 && u.wleft > 0) then (d, render d name "blocked") else
       -- repaired body: the fetched object is gone → one aborted session on the orphan's guard, then a new
       -- object (CreateTreasure takes and releases its guard once) whose guard is observed from now on
-      let d := if d.recheck && ts.pc == 0 && u.fetchedOnly && d.deleted && !d.fresh then
+      -- object identity: fetch (if not done) and take the object's guard, re-checking as the code does
+      let objBefore := (d.st.th t).obj
+      let d := if ts.pc == 0 then suntil 6 d t 2 else d
+      -- repaired body: the fetched object was gone → one aborted session on the orphan's guard, then a new
+      -- object (CreateTreasure takes and releases its guard once) whose guard is observed from now on
+      let replaced := ts.pc == 0 && u.fetchedOnly && (d.st.th t).pc == 2 && (d.st.th t).obj != objBefore
+      let d := if replaced then
           let s0 := { d.s with g := Hv.Guard.init, val := 0 }
           match Hv.Lin.step (cfgOf d) op s0 .envStart with
           | some s1 => match Hv.Lin.step (cfgOf d) op s1 (.envRelease s1.g.nextSid) with
@@ -155,6 +194,12 @@ def stepThread (d : DSt) (name : String) (fetch : Bool) : DSt × String :=
         let imm := (cfgOf d).releaseInSave && ts.pc == 3
         let ths := d.ths.map (fun x => if x.tid == t then
           { x with fetchedOnly := false, wleft := if imm then 2 else x.wleft } else x)
+        -- the same step in the object-identity model (its write and save are one step, at the save)
+        let d := match ts.pc with
+          | 1 => suntil 6 d t 3
+          | 3 => suntil 3 d t (if (cfgOf d).releaseInSave then 5 else 4)   -- the in-save release lets the next call in
+          | 4 => suntil 2 d t 5
+          | _ => d
         let res := d.resurrected || (d.deleted && ts.pc == 3)
         -- metadata: stamped at the step that follows the grant; read back when the response is built — which is
         -- behind Save, i.e. in immediate-write mode after the guard was released
@@ -164,7 +209,7 @@ def stepThread (d : DSt) (name : String) (fetch : Bool) : DSt × String :=
         let d1 := settle 32 { d with s := s', ths := ths, resurrected := res, wq := if imm then d.wq ++ [t] else d.wq,
                                      dirtyW := d.dirtyW || imm, lastBy := lastBy, byOf := byOf }
         let u1 := (d1.ths.find? (·.tid == t)).getD u
-        let stale := d1.deleted && !d1.fresh && !d1.cleared && (d1.s.th t).pc == 5
+        let stale := (d1.s.th t).pc == 5 && sbroken d1
         let lateBy := ts.pc == 4 && late && lastBy != name
         (d1, render d1 name (showState d1 u1) ++ lostFlag d1 ++
           (if stale then "\t#F:C09-delete-increment-stale-object" else "") ++
@@ -265,7 +310,7 @@ def sstep (d : DSt) (ws : List String) : DSt × String :=
 def step (d : DSt) (line : String) : DSt × String :=
   match words line with
   | ["case", _, mode, kind] =>
-    ({ d with mode := mode, kind := kind, wq := [], dirtyW := false, lastBy := "", byOf := [], s := Hv.Lin.init (if mode == "setx" then 0 else 5), ths := [], deleted := false,
+    ({ d with mode := mode, kind := kind, wq := [], dirtyW := false, lastBy := "", byOf := [], st := Hv.Stale.init 5, ndel := 0, s := Hv.Lin.init (if mode == "setx" then 0 else 5), ths := [], deleted := false,
               resurrected := false, cleared := false, fresh := false, sops := [], sparked := [], snext := 10,
               sp := Hv.Lin.init 0, searly := [] }, line)
   | ws =>
@@ -284,8 +329,10 @@ def step (d : DSt) (line : String) : DSt × String :=
           | none => (d, "bad-op")
           | some s2 =>
             let cleared := d.kind == "p0"
-            let d' := { d with s := { s2 with val := if cleared then 0 else s2.val }, deleted := true, cleared := cleared }
-            (d', "del DELETED v=absent")
+            let dt := 20 + d.ndel
+            let d' := suntil 6 { d with s := { s2 with val := if cleared then 0 else s2.val }, deleted := true, cleared := cleared,
+                                        ndel := d.ndel + 1 } dt 5
+            (d', s!"del DELETED v={showVal d'}")
       | ["reload"] =>
         if d.kind == "m" then (d, "reload v=absent")
         else if d.kind == "p0" && d.deleted && d.resurrected && !d.fresh then
